@@ -1,6 +1,8 @@
 // Link-time seams (-Wl,--wrap=...): simulated file store and scripted voice-activity decisions.
 #define _GNU_SOURCE 1
 #include "faults.h"
+#include <sys/syscall.h>
+#include <unistd.h>
 #include <cerrno>
 #include <cstdio>
 
@@ -36,6 +38,8 @@ struct Fake {
     size_t size;
 };
 bool g_on = false;
+bool g_real_store = false;
+int64_t g_real_maps = 0;
 std::map<std::string, std::string> g_cache;   // real files read once
 std::map<std::string, std::string> g_virtual; // files that exist only here
 std::vector<Fault> g_faults;
@@ -66,6 +70,8 @@ bool read_real(const std::string &path, std::string &out)
 } // namespace
 
 void activate(bool on) { g_on = on; }
+void real_store(bool on) { g_real_store = on; }
+int64_t real_maps() { return g_real_maps; }
 void set_image(const std::string &path, const std::string &bytes) { g_virtual[path] = bytes; }
 void remove_image(const std::string &path) { g_virtual.erase(path); }
 void preload(const std::string &path)
@@ -289,6 +295,26 @@ mmio_file_t *__wrap_mmio_file_read(const char *filename)
     }
     if (!vfs::apply(path, bytes, false, nullptr, nullptr))
         return nullptr;
+    if (vfs::g_real_store) {
+        // the faulted image becomes a real (anonymous, memory-backed) file and goes through src/mmio.c itself:
+        // open/fstat/mmap/close run for real, the image is never on disk, nothing outlives the call
+        int mfd = (int)syscall(SYS_memfd_create, "simfile", 0u);
+        if (mfd < 0)
+            return nullptr;
+        size_t done = 0;
+        while (done < bytes.size()) {
+            ssize_t w = write(mfd, bytes.data() + done, bytes.size() - done);
+            if (w <= 0)
+                break;
+            done += (size_t)w;
+        }
+        char real[64];
+        snprintf(real, sizeof real, "/proc/self/fd/%d", mfd);
+        mmio_file_t *mf = done == bytes.size() ? __real_mmio_file_read(real) : nullptr;
+        close(mfd);
+        vfs::g_real_maps++;
+        return mf;
+    }
     if (bytes.empty()) { // mmap(.., 0, ..) fails with EINVAL
         errno = EINVAL;
         return nullptr;
